@@ -169,7 +169,7 @@ impl Prop for C20 {
 
     fn assumptions() -> Vec<String> {
         vec![
-            "general profile: the line -> token map uses the crate's public clean()/normalize()/split_words(); plain profile: words are [a-z]+ separated by single spaces and the oracle is fully independent".into(),
+            "general profile: cleaning and NFKC normalisation of a line are computed independently (split/join, per-cluster unicode-normalization) unless the line has a cluster mixing whitespace with other code points; the line -> token map uses the crate's public split_words(); plain profile: words are [a-z]+ separated by single spaces and the oracle is fully independent".into(),
             "character n-gram centre filter: alphabetic (std) or ASCII punctuation of Unicode category P (the generator only produces ASCII non-letters)".into(),
             "identical results across thread counts are asserted as equal (word, frequency) maps (the statement says identical)".into(),
             "get_closest: distance = C12 reference (grapheme clusters, no swap) to normalize(q, NFKC)".into(),
@@ -221,7 +221,14 @@ impl Prop for C20 {
         let mut counts: HashMap<String, usize> = HashMap::new();
         let all_lines: Vec<&String> = c.files.iter().flatten().collect();
         for l in all_lines.iter().take(c.max_sequences.unwrap_or(usize::MAX)) {
-            let nl = if c.plain { (*l).clone() } else { normalize(&clean(l, true), Normalization::NFKC, true) };
+            let nl = if c.plain {
+                (*l).clone()
+            } else if model::mixed_free(l) {
+                // independent of the crate's helpers where cluster-wise and code-point-wise cleaning agree
+                model::normalize_model(&model::clean_model(l), 2)
+            } else {
+                normalize(&clean(l, true), Normalization::NFKC, true)
+            };
             for t in line_tokens(&nl, c.mode, c.plain) {
                 *counts.entry(t).or_insert(0) += 1;
             }
